@@ -40,21 +40,23 @@ class Exc(str):
 
 
 class Val:
-    __slots__ = ("taint", "kind", "lb", "exact", "types", "classes", "elem", "ilb", "cv", "kw", "may_none", "fields")
+    __slots__ = ("taint", "kind", "lb", "exact", "types", "classes", "elem", "ilb", "cv", "kw", "may_none", "fields", "len_of", "iub")
     NOCV = ("<no constant>",)
 
     def __init__(self, taint=False, kind="any", lb=0, exact=None, types=frozenset(), classes=frozenset(), elem=None,
-                 ilb=None, cv=NOCV, kw=None, may_none=False, fields=None):
+                 ilb=None, cv=NOCV, kw=None, may_none=False, fields=None, len_of=None, iub=None):
+        self.iub = iub                                  # integer upper bound
         self.taint, self.kind, self.lb, self.exact = taint, kind, lb, exact
         self.types, self.classes, self.elem = types, classes, elem
         self.ilb, self.cv, self.kw = ilb, cv, kw      # integer lower bound; known constant; **kwargs contents
         self.may_none, self.fields = may_none, fields  # value may be None; known attribute values of a locally built object
+        self.len_of = len_of                            # this integer is len(<key>) (hoisted length)
 
     def key(self):
         return (self.taint, self.kind, self.lb, self.exact, self.types, self.classes, self.elem.key() if self.elem else None,
                 self.ilb, self.cv if isinstance(self.cv, (int, str, bool, type(None), tuple)) else None,
                 tuple((k, v.key()) for k, v in self.kw) if self.kw else None, self.may_none,
-                tuple((k, v.key()) for k, v in self.fields) if self.fields else None)
+                tuple((k, v.key()) for k, v in self.fields) if self.fields else None, self.len_of, self.iub)
 
     def __eq__(self, o):
         return isinstance(o, Val) and self.key() == o.key()
@@ -73,7 +75,7 @@ class Val:
         return "<" + " ".join(bits) + ">"
 
     def but(self, **kw):
-        v = Val(self.taint, self.kind, self.lb, self.exact, self.types, self.classes, self.elem, self.ilb, self.cv, self.kw, self.may_none, self.fields)
+        v = Val(self.taint, self.kind, self.lb, self.exact, self.types, self.classes, self.elem, self.ilb, self.cv, self.kw, self.may_none, self.fields, self.len_of, self.iub)
         for k, x in kw.items():
             setattr(v, k, x)
         return v
@@ -90,6 +92,10 @@ NONE = Val(kind="none", cv=None, may_none=True)
 def join_val(a: Val, b: Val) -> Val:
     if a == b:
         return a
+    if a.kind == "none" and b.kind != "none":
+        return b.but(may_none=True)
+    if b.kind == "none" and a.kind != "none":
+        return a.but(may_none=True)
     kind = a.kind if a.kind == b.kind else ("any" if "none" not in (a.kind, b.kind) else (a.kind if b.kind == "none" else b.kind))
     elem = a.elem if a.elem == b.elem else (join_val(a.elem, b.elem) if a.elem and b.elem else (a.elem or b.elem))
     ilb = min(a.ilb, b.ilb) if a.ilb is not None and b.ilb is not None else None
@@ -100,7 +106,7 @@ def join_val(a: Val, b: Val) -> Val:
         fields = tuple(sorted(((k, join_val(fa[k], fb[k])) for k in fa if k in fb), key=lambda kv: kv[0])) or None
     return Val(a.taint or b.taint, kind, min(a.lb, b.lb), a.exact if a.exact == b.exact else None,
                a.types | b.types, a.classes | b.classes, elem, ilb, cv, a.kw if a.kw == b.kw else None,
-               a.may_none or b.may_none, fields)
+               a.may_none or b.may_none, fields, iub=max(a.iub, b.iub) if a.iub is not None and b.iub is not None else None)
 
 
 class St:
@@ -194,6 +200,14 @@ class Raises:
                 out = v if out is None else join_val(out, v)
         if out is None:
             out = Val(taint=True, kind="bytes")
+        if out.lb == 0 and out.kind in ("bytes", "any"):
+            # the value domain could not bound the item length: use the framing facts of the value-flow terms
+            from .producer import put_length_bound
+            for pname in self.cfg.queue_producers:
+                f = self.prog.lookup_method(cls, pname)
+                b = put_length_bound(self.prog, f) if f is not None else None
+                if b:
+                    out = out.but(lb=b, kind="bytes")
         self.queue_cache[key] = out
         return out
 
@@ -215,6 +229,7 @@ class FnAnalysis(Analysis):
         self.params = [x.arg for x in a.posonlyargs + a.args + a.kwonlyargs]
         self.recv = self.params[0] if (fn.cls is not None and fn.kind in ("method", "classmethod", "property", "setter") and self.params) else None
         self.class_assigns = self._class_valued_locals()
+        self._local_names = {n.id for n in ast.walk(fn.node) if isinstance(n, ast.Name) and isinstance(n.ctx, ast.Store)} | set(self.params)
 
     # ---------------------------------------------------------------- setup
     def _class_valued_locals(self) -> Dict[str, frozenset]:
@@ -407,7 +422,7 @@ class FnAnalysis(Analysis):
                     sub._sa_cond = True
         for n in ast.walk(node):
             if isinstance(n, ast.Subscript) and isinstance(n.ctx, ast.Load) and not getattr(n, "_sa_cond", False):
-                k, key = const_int(n.slice), self.key_of(n.value)
+                k, key = self.cint(n.slice), self.key_of(n.value)
                 if k is not None and key and key in st.env and st.env[key].kind in ("bytes", "list", "str", "any", "strlist"):
                     need = k + 1 if k >= 0 else -k
                     if st.env[key].lb < need:
@@ -524,6 +539,11 @@ class FnAnalysis(Analysis):
             return
         if isinstance(test, ast.NamedExpr):
             return self.refine(test.value, truth, st)
+        if isinstance(test, ast.Call) and isinstance(test.func, ast.Attribute) and test.func.attr == "empty" and not test.args:
+            k = self.key_of(test.func.value)
+            if k and not truth:
+                st.members = st.members | {("<nonempty>", k)}
+            return
         if isinstance(test, ast.Call) and isinstance(test.func, ast.Name) and test.func.id == "isinstance" and len(test.args) == 2:
             k = self.key_of(test.args[0])
             if k and truth:
@@ -560,8 +580,8 @@ class FnAnalysis(Analysis):
                 return
             # relational length facts: len(buf) >= n for an integer local n
             for (ll, rr, fl) in ((l, r, False), (r, l, True)):
-                bn = self.len_of(ll)
-                if bn is not None and isinstance(rr, ast.Name) and bn in st.env and const_int(rr) is None:
+                bn = self.len_of(ll, st)
+                if bn is not None and isinstance(rr, ast.Name) and bn in st.env and self.cint(rr) is None and rr.id in st.env:
                     opn = type(op).__name__
                     if fl:
                         opn = {"Lt": "Gt", "Gt": "Lt", "LtE": "GtE", "GtE": "LtE"}.get(opn, opn)
@@ -574,9 +594,9 @@ class FnAnalysis(Analysis):
                             v0 = st.env[bn]
                             st.env[bn] = v0.but(lb=max(v0.lb, iv.ilb + (1 if opn == "Gt" else 0)))
             # length facts
-            name, c, flip = self.len_of(l), const_int(r), False
+            name, c, flip = self.len_of(l, st), self.cint(r), False
             if name is None:
-                name, c, flip = self.len_of(r), const_int(l), True
+                name, c, flip = self.len_of(r, st), self.cint(l), True
             if name is not None and c is not None and name in st.env:
                 opn = type(op).__name__
                 if flip:
@@ -613,9 +633,38 @@ class FnAnalysis(Analysis):
                 target = r
         return target.qual if target else None
 
-    def len_of(self, e) -> Optional[str]:
+    def cint(self, e) -> Optional[int]:
+        """Integer value of a literal or of a folded module / class constant (named constants are as good as literals)."""
+        v = const_int(e)
+        if v is not None or e is None:
+            return v
+        try:
+            if isinstance(e, ast.Attribute) and isinstance(e.value, ast.Name) and self.recv and e.value.id == self.recv and self.self_cls is not None:
+                a = self.prog.lookup_class_attr(self.self_cls, e.attr)
+                if a is not None:
+                    r = self.prog.fold(a[1], a[0].module, a[0])
+                    return r if isinstance(r, int) and not isinstance(r, bool) else None
+            if isinstance(e, (ast.Name, ast.Attribute)):
+                if isinstance(e, ast.Name) and e.id in getattr(self, "_local_names", ()):
+                    return None
+                r = self.prog.fold(e, self.m, self.fn.cls)
+                return r if isinstance(r, int) and not isinstance(r, bool) else None
+            if isinstance(e, ast.UnaryOp) and isinstance(e.op, ast.USub):
+                r = self.cint(e.operand)
+                return -r if r is not None else None
+            if isinstance(e, ast.BinOp) and isinstance(e.op, (ast.Add, ast.Sub, ast.Mult)):
+                a, b = self.cint(e.left), self.cint(e.right)
+                if a is not None and b is not None:
+                    return a + b if isinstance(e.op, ast.Add) else (a - b if isinstance(e.op, ast.Sub) else a * b)
+        except Exception:
+            return None
+        return None
+
+    def len_of(self, e, st=None) -> Optional[str]:
         if isinstance(e, ast.Call) and isinstance(e.func, ast.Name) and e.func.id == "len" and len(e.args) == 1:
             return self.key_of(e.args[0])
+        if st is not None and isinstance(e, ast.Name) and e.id in st.env and st.env[e.id].len_of:
+            return st.env[e.id].len_of
         return None
 
     def for_bind(self, node, st: St):
@@ -718,7 +767,7 @@ class FnAnalysis(Analysis):
         if isinstance(v, bool):
             return Val(kind="bool", cv=v)
         if isinstance(v, int):
-            return Val(kind="int", ilb=v, cv=v)
+            return Val(kind="int", ilb=v, cv=v, iub=v)
         if isinstance(v, float):
             return Val(kind="float")
         if v is None:
@@ -733,12 +782,34 @@ class FnAnalysis(Analysis):
             return Val(kind="cls", classes=frozenset([r.qual]))
         if e.id in self.class_assigns:
             return Val(kind="cls", classes=self.class_assigns[e.id])
-        return CLEAN
+        return self.folded_const(e) or CLEAN
+
+    def folded_const(self, e) -> Optional[Val]:
+        """Module / class level constant (never a local): its folded value as an abstract value."""
+        if isinstance(e, ast.Name) and e.id in getattr(self, "_local_names", ()):
+            return None
+        try:
+            r = self.prog.fold(e, self.m, self.fn.cls)
+        except Exception:
+            return None
+        if isinstance(r, bool):
+            return Val(kind="bool", cv=r)
+        if isinstance(r, int):
+            return Val(kind="int", ilb=r, cv=r, iub=r)
+        if isinstance(r, (list, tuple)):
+            return Val(kind="list", lb=len(r), exact=len(r))
+        if isinstance(r, (bytes, str)):
+            return Val(kind="bytes" if isinstance(r, bytes) else "str", lb=len(r), exact=len(r), cv=r)
+        return None
 
     def v_Attribute(self, e, st):
         k = self.key_of(e)
         if k and k in st.env:
             return st.env[k]
+        if isinstance(e.value, ast.Name) and (e.value.id not in st.env or e.value.id == self.recv):
+            fc = self.folded_const(e)
+            if fc is not None:
+                return fc
         base = self.val(e.value, st)
         if base.fields:
             fd = dict(base.fields)
@@ -800,7 +871,7 @@ class FnAnalysis(Analysis):
                     self.val(x, st)
             return self.slice_val(base, e.slice, st, self.key_of(e.value))
         idx = self.val(e.slice, st)
-        k = const_int(e.slice)
+        k = self.cint(e.slice)
         if base.kind in ("bytes", "list", "str", "any", "strlist") or base.taint:
             if base.taint and k is not None:
                 need = k + 1 if k >= 0 else -k
@@ -820,8 +891,9 @@ class FnAnalysis(Analysis):
                 ik, ck = self.key_of(e.slice), self.key_of(e.value)
                 if (ik, ck) in st.members:
                     self.raiser(e, "KeyError", "", proved=f"membership `{ik} in {ck}` established on this path")
-                elif self.masked_index_ok(e, st):
-                    self.raiser(e, "IndexError", "", proved="index masked below the folded table length")
+                elif self.masked_index_ok(e, st) or (idx.ilb is not None and idx.ilb >= 0 and idx.iub is not None and base.kind in ("list", "bytes", "str")
+                                                      and idx.iub < max(base.lb, base.exact or 0)):
+                    self.raiser(e, "IndexError", "", proved="index bounded below the container length")
                 else:
                     self.raiser(e, "LookupError", "peer-controlled index / key into a container without a membership or bounds fact")
         if base.elem is not None:
@@ -841,8 +913,8 @@ class FnAnalysis(Analysis):
         return False
 
     def slice_val(self, base: Val, sl: ast.Slice, st: St = None, base_key=None) -> Val:
-        lo = const_int(sl.lower) if sl.lower is not None else 0
-        hi = const_int(sl.upper) if sl.upper is not None else None
+        lo = self.cint(sl.lower) if sl.lower is not None else 0
+        hi = self.cint(sl.upper) if sl.upper is not None else None
         lb, exact = 0, None
         if sl.step is None and lo == 0 and isinstance(sl.upper, ast.Name) and st is not None:
             n = st.env.get(sl.upper.id)
@@ -890,7 +962,21 @@ class FnAnalysis(Analysis):
                 cv = {ast.Add: lambda x, y: x + y, ast.Sub: lambda x, y: x - y, ast.Mult: lambda x, y: x * y}.get(type(op), lambda x, y: Val.NOCV)(a.cv, b.cv)
             except Exception:
                 cv = Val.NOCV
-        return Val(taint, kind, ilb=ilb, cv=cv)
+        iub = None
+        if isinstance(op, ast.BitAnd) and any(isinstance(x.cv, int) and not isinstance(x.cv, bool) and x.cv >= 0 for x in (a, b)):
+            kind = "int"                                # <anything> & <non-negative int constant> is an int in [0, constant]
+        if kind == "int":
+            if isinstance(op, ast.BitAnd):
+                cands = [x.iub for x in (a, b) if x.iub is not None and x.ilb is not None and x.ilb >= 0]
+                if cands:
+                    iub, ilb = min(cands), 0           # x & m with 0 <= m <= M lies in [0, M] for every integer x
+            elif isinstance(op, ast.Mod) and b.ilb is not None and b.ilb > 0 and b.iub is not None:
+                iub, ilb = b.iub - 1, 0
+            elif isinstance(op, ast.RShift) and a.iub is not None and a.ilb is not None and a.ilb >= 0:
+                iub = a.iub
+            elif isinstance(op, ast.Add) and a.iub is not None and b.iub is not None:
+                iub = a.iub + b.iub
+        return Val(taint, kind, ilb=ilb, cv=cv, iub=iub)
 
     def none_raiser(self, e, v: Val, what: str):
         if v.may_none and v.taint:
@@ -1146,6 +1232,9 @@ class FnAnalysis(Analysis):
                     and isinstance(f.value.value, ast.Name) and f.value.value.id == self.recv and self.self_cls is not None:
                 qv = self.queue_model(f.value.attr)
                 if qv is not None:
+                    if f.attr == "get_nowait" and ("<nonempty>", self.key_of(f.value)) in st.members:
+                        st.members = st.members - {("<nonempty>", self.key_of(f.value))}
+                        return qv
                     if f.attr == "get_nowait" and self.R.cfg.env:
                         self.pending.append(Exc("asyncio.QueueEmpty").with_(site=self.site(e), chain=self.chain, why="queue empty (environment)"))
                     return qv
@@ -1282,7 +1371,7 @@ class FnAnalysis(Analysis):
         # ---- builtins and library functions
         if meth is None or ext:
             if name == "len":
-                return Val(a0.taint, "int", ilb=a0.lb)
+                return Val(a0.taint, "int", ilb=a0.lb, len_of=self.key_of(e.args[0]) if e.args else None)
             if name in ("bytes", "bytearray") and argv and a0.kind == "list" and a0.elem is not None:
                 self.none_raiser(e, a0.elem, "bytes([...]) element")
             if name in ("math.modf", "math.floor", "math.ceil", "round", "abs") and argv:
@@ -1328,6 +1417,18 @@ class FnAnalysis(Analysis):
                     else:
                         self.raiser(e, "struct.error", f"struct.unpack({fmt!r}) on peer data whose length is not known to be exactly {size}")
                 return Val(buf.taint, "list", elem=Val(buf.taint, "int"))
+            if name == "struct.unpack_from":
+                fmt = e.args[0].value if e.args and isinstance(e.args[0], ast.Constant) and isinstance(e.args[0].value, str) else None
+                buf = argv[1] if len(argv) > 1 else CLEAN
+                off = self.cint(e.args[2]) if len(e.args) > 2 else (self.cint(dict((k.arg, k.value) for k in e.keywords).get("offset")) if any(k.arg == "offset" for k in e.keywords) else 0)
+                if buf.taint:
+                    size = _struct.calcsize(fmt) if fmt else None
+                    if size is not None and off is not None and off >= 0 and buf.lb >= off + size:
+                        self.raiser(e, "struct.error", "", proved=f"buffer length >= {buf.lb} >= offset {off} + {size}")
+                    else:
+                        self.raiser(e, "struct.error", f"struct.unpack_from({fmt!r}, offset {off}) on peer data whose length is only known to be >= {buf.lb}")
+                signed = fmt is not None and any(c in "bhilq" for c in fmt)
+                return Val(buf.taint, "list", elem=Val(buf.taint, "int", ilb=None if signed else 0))
             if name == "int.from_bytes":
                 signed = any(k.arg == "signed" for k in e.keywords)
                 return Val(any_taint, "int", ilb=None if signed else 0)
